@@ -88,10 +88,11 @@ def run_harness(pid, tier, seed, budget_s):
     return r
 
 
-def replay_model(pid, ob, fn_result):
-    """Replay a solver counter-model on the real function (concrete Python), if a replay adapter exists."""
+def replay_model(pid, ob, fn_result, search=False):
+    """Replay a solver counter-model on the real function (concrete Python), if a replay adapter exists.
+    search=True: no model available; look for a failing input among small inputs instead (bounded)."""
     ensure_venv()
-    req = {"function": fn_result["function"], "file": fn_result["file"], "obligation": ob.get("obligation", ob.get("id")),
+    req = {"search": search, "function": fn_result["function"], "file": fn_result["file"], "obligation": ob.get("obligation", ob.get("id")),
            "model": ob.get("model", {}), "note": ob.get("note", "")}
     env = dict(os.environ, PYTHONPATH=f"{ROOT}:{REPO}", PYTHONHASHSEED="0", PYTHONDONTWRITEBYTECODE="1")
     try:
@@ -206,9 +207,12 @@ def main():
         payload = {"property": pid, "tree": tree_id(), **v}
         suffix = ""
         if v["kind"] == "obligation" and v.get("undischarged"):
-            payload["replay"] = {"reproduced": False, "reason": "the solver returned no counter-model (unknown); "
-                                 "the obligation was discharged on the pinned tree and the function has changed"}
-            suffix = " no-failing-input-found"
+            rep = replay_model(pid, v, fn_by_name[v["function"]], search=True)
+            rep["note"] = ("the solver returned no counter-model (unknown); the obligation was discharged on the pinned "
+                           "tree and the function's source has changed since")
+            payload["replay"] = rep
+            if not rep.get("reproduced"):
+                suffix = " no-failing-input-found"
         elif v["kind"] == "obligation":
             rep = replay_model(pid, v, fn_by_name[v["function"]])
             payload["replay"] = rep
